@@ -111,6 +111,7 @@ func runDML(env *kernel.Env, cfg dmlCfg) {
 	T := env.T
 	w := NewWorld(env)
 	defer w.Close()
+	w.PermuteOrder = T.Bool(1, 3)
 	nsess := T.Range(1, 3)
 	var sess []*Sess
 	for i := 0; i < nsess; i++ {
@@ -242,8 +243,15 @@ func runDML(env *kernel.Env, cfg dmlCfg) {
 					// duplicate was accepted or a non-duplicate was rejected as one;
 					// two different failure kinds are not its business
 					keyMatter := (out.Err == "duplicate-key" && engCls == "ok") || (engCls == "duplicate-key" && out.Err == "")
+					modelLabel := orOK(out.Err)
+					if okKinds["out-of-range"] {
+						// some row's new value does not fit its column (whichever failure
+						// the model met first): the label the known finding is matched by
+						modelLabel = "out-of-range"
+						keyMatter = false
+					}
 					if cfg.ModelEq || keyMatter {
-						env.Fail("statement-outcome-equals-model", fmt.Sprintf("outcome:%s:model-%s:engine-%s:%s", st.Kind, orOK(out.Err), clsKind(engCls), tag),
+						env.Fail("statement-outcome-equals-model", fmt.Sprintf("outcome:%s:model-%s:engine-%s:%s", st.Kind, modelLabel, clsKind(engCls), tag),
 							"%s: model says %s, engine says %s (%v)", q, orOK(out.Err), engCls, res.Err)
 						break
 					}
@@ -439,7 +447,7 @@ func dmlConstraintInvariant(env *kernel.Env, t *TableDef, rows []sql.Row, q, stK
 						tag = "with-generated-column"
 					}
 				}
-				env.Fail("check-holds", "check-false:"+tag, "after %s row %s violates CHECK (%s)", q, FormatRow(row), ck.SQL(t))
+				env.Fail("check-holds", "check-false:"+tag+":"+stKind, "after %s row %s violates CHECK (%s)", q, FormatRow(row), ck.SQL(t))
 				return false
 			}
 		}
